@@ -322,6 +322,81 @@ def svd_init(fn):
     return True
 
 
+# ------------------------------------------------------------------ per-call arguments of the Newton step
+def classify_arg(node, params):
+    if isinstance(node, ast.Name):
+        return ["param", node.id] if node.id in params else ["local", node.id]
+    if isinstance(node, ast.Attribute) and up(node.value) == "self":
+        return ["self", node.attr]
+    return ["other", up(node)]
+
+
+def the_call(fn, pred, what):
+    calls = [n for n in ast.walk(fn) if isinstance(n, ast.Call) and pred(n)]
+    if len(calls) != 1:
+        U(f"{what}: expected exactly one such call, found {len(calls)}", fn)
+    return calls[0]
+
+
+def step_code(solver_cls, opt_cls):
+    sm, om = methods(solver_cls), methods(opt_cls)
+    for need, ms, cn in (("step", sm, "JacobianSolver"), ("step", om, "Optimize"), ("solve", om, "Optimize")):
+        if need not in ms:
+            U(f"{cn}.{need} not found")
+    st = sm["step"]
+    params = [a.arg for a in st.args.args][1:]
+    if st.args.vararg or st.args.kwarg or st.args.kwonlyargs:
+        U("JacobianSolver.step: parameter list shape", st)
+    call = the_call(st, lambda n: isinstance(n.func, ast.Attribute) and n.func.attr == "lstsq", "JacobianSolver.step: lstsq call")
+    if len(call.args) != 1 or up(call.func.value) != "jac_svd":
+        U("JacobianSolver.step: lstsq call shape", call)
+    lst_kw = [[k.arg, classify_arg(k.value, params)] for k in call.keywords]
+    # the decomposition is a fresh SVD of the masked Jacobian with default settings
+    src = [up(n) for n in ast.walk(st) if isinstance(n, ast.Assign)]
+    if "jac_svd = SVD(jac[mask_output, :][:, mask_input])" not in src:
+        U("JacobianSolver.step: jac_svd is not SVD(jac[mask_output, :][:, mask_input])", st)
+    rebound = set()
+    for n in ast.walk(st):
+        tg = []
+        if isinstance(n, ast.Assign):
+            tg = n.targets
+        elif isinstance(n, (ast.AugAssign, ast.AnnAssign, ast.For)):
+            tg = [n.target]
+        elif isinstance(n, ast.NamedExpr):
+            tg = [n.target]
+        for t in tg:
+            for x in ast.walk(t):
+                if isinstance(x, ast.Name) and x.id in params:
+                    rebound.add(x.id)
+    kwnames = {k for k, _ in lst_kw} | set(params)
+    stores = set()
+    for n in ast.walk(solver_cls):
+        tg = n.targets if isinstance(n, ast.Assign) else [n.target] if isinstance(n, (ast.AugAssign, ast.AnnAssign)) else []
+        for t in tg:
+            for x in ast.walk(t):
+                if isinstance(x, ast.Attribute) and up(x.value) == "self" and x.attr in kwnames:
+                    stores.add(x.attr)
+        if isinstance(n, ast.Call) and up(n.func) == "setattr":
+            U("JacobianSolver uses setattr", n)
+    want = ["dx = self.x - self._last_jac_x", "dy = y - self._last_y",
+            "jac = self._last_jac + np.outer(dy - np.dot(self._last_jac, dx), dx) / np.dot(dx, dx)",
+            "jac = myf.get_jacobian(self.x, f0=y)", "self._last_jac_x = self.x.copy()", "self._last_jac = jac.copy()",
+            "self._last_y = y.copy()"]
+    broyden_ok = all(w in src for w in want) and \
+        any(isinstance(n, ast.If) and up(n.test) == "broyden and hasattr(self, '_last_jac')" for n in ast.walk(st))
+    ostep, osolve = om["step"], om["solve"]
+    c1 = the_call(ostep, lambda n: up(n.func) == "self.solver.step", "Optimize.step: solver.step call")
+    c2 = the_call(osolve, lambda n: up(n.func) == "self.step", "Optimize.solve: step call")
+    p1 = [a.arg for a in ostep.args.args][1:]
+    p2 = [a.arg for a in osolve.args.args][1:]
+    if c1.args:
+        U("Optimize.step: positional arguments to solver.step", c1)
+    return {"lstsq_kwargs": lst_kw, "params": params, "rebound": sorted(rebound), "self_stores": sorted(stores),
+            "optimize_step_kwargs": [[k.arg, classify_arg(k.value, p1)] for k in c1.keywords],
+            "solve_kwargs": [[k.arg, classify_arg(k.value, p2)] for k in c2.keywords if k.arg in ("rcond", "sing_val_cutoff", "broyden")],
+            "broyden_update": bool(broyden_ok)}
+
+
 def extract():
     t = parse("xdeps/optimize/optimize.py")
     cls = {name: c for _, name, _, c in classes(t)}
@@ -341,7 +416,12 @@ def extract():
         U("class SVD not found")
     ms = methods(cls2["SVD"])
     svd_init(ms["__init__"])
-    return {"x_to_knobs": weight_fn(mf["_x_to_knobs"]), "knobs_to_x": weight_fn(mf["_knobs_to_x"]),
+    t3 = parse("xdeps/optimize/jacobian.py")
+    cls3 = {name: c for _, name, _, c in classes(t3)}
+    if "JacobianSolver" not in cls3 or "Optimize" not in cls:
+        U("class JacobianSolver / Optimize not found")
+    return {"step": step_code(cls3["JacobianSolver"], cls["Optimize"]),
+            "x_to_knobs": weight_fn(mf["_x_to_knobs"]), "knobs_to_x": weight_fn(mf["_knobs_to_x"]),
             "scaled_to_native": scaled_fn(mv["_scaled_to_native"]), "scaled_from_native": scaled_fn(mv["_scaled_from_native"]),
             "fd": fd_fn(mf["get_jacobian"]), "view_jac": view_jac_fn(mv["get_jacobian"]), "view_call": view_call_fn(mv["__call__"]),
             "lstsq": lstsq_fn(ms["lstsq"])}
@@ -406,6 +486,13 @@ def emit(d):
              + clist([f"mk_slice {cs(a)} {cs(b)} {c_} {cs(e)}" for a, b, c_, e in q["slices"]]) + "\n    "
              + f"({cs(q['init'][0])}, {cs(q['init'][1])})\n    " + clist(masks).replace("; mk_mask", ";\n     mk_mask") + "\n    "
              + f"{cs(q['result'])}\n    {cm(q['formula'])}.")
+    sc = d["step"]
+
+    def cargs(l):
+        return clist([f"({cs(k)}, " + {"param": "ArgParam", "local": "ArgLocal", "self": "ArgSelf", "other": "ArgOther"}[v[0]] + f" {cs(v[1])})" for k, v in l])
+    o.append("Definition step_args : step_code :=\n  mk_step " + cargs(sc["lstsq_kwargs"]) + "\n    " + clist([cs(x) for x in sc["params"]]) + " "
+             + clist([cs(x) for x in sc["rebound"]]) + " " + clist([cs(x) for x in sc["self_stores"]]) + "\n    "
+             + cargs(sc["optimize_step_kwargs"]) + "\n    " + cargs(sc["solve_kwargs"]) + " " + ("true" if sc["broyden_update"] else "false") + ".")
     return "\n".join(o) + "\n"
 
 
@@ -417,6 +504,11 @@ def main():
             return
         write_if_changed("GenOpt.v", emit(d))
     except Unrecognised as e:
+        if "--json" not in sys.argv:
+            # never leave the tables of another tree behind: the development must not build against stale data
+            msg = str(e).replace("*)", "* )").replace("(*", "( *")
+            write_if_changed("GenOpt.v", "(* tools/py2v translator FAILED on the current source: " + msg + " *)\n"
+                             "Definition translator_failed_no_tables : bool := true.\n")
         fail("gen_opt: " + str(e))
 
 
